@@ -272,6 +272,9 @@ def change_menu(mname, f, level):
                 cf({'null': False}, init)
     else:
         cf({'null': True})
+    if rel and level != 'lite' and t == 'FK':
+        # a ForeignKey is indexed unless told otherwise
+        cf({'db_index': not a.get('db_index', True)})
     if not rel:
         if t not in ('Text',) and not a.get('unique'):
             cf({'db_index': not a.get('db_index', False)})
